@@ -4,7 +4,8 @@ Structural matrix: every ExecuteMsg variant of every contract x the effects reac
 dispatch arm x the guard that must dominate them on every call chain."""
 import re
 from ..facts import mname, term_callee
-from ..effects import (dispatch_table, arm_blocks, enumerate_chains, fn_effects, resolve_param_item, Effect)
+from ..effects import (dispatch_table, arm_blocks, enumerate_chains, fn_effects, resolve_param_item, Effect,
+                       collect_effects, CONFIG_CLASS_MSGS, CONFIG_CLASS_CALLS, MSG_EFFECT)
 from ..guards import (EqGuard, HelperGuard, AnyGuard, is_sender, is_self_addr, is_loaded, is_query_field,
                       site_guarded, ok_return_blocks, origins_at, resolve, root_param_is)
 from ..mir import Origin
@@ -40,11 +41,7 @@ CONFIG_CLASS_ITEMS = [
     "::state::TMP_PAIR_INFO", "::state::TMP_TRIO_INFO", "::state::TMP_VAULT_ASSET", "::state::TMP_EPOCH",
     "::state::TEMP_VAULT_ASSET",
 ]
-CONFIG_CLASS_MSGS = re.compile(r"(WasmMsg::(Instantiate|Migrate|UpdateAdmin|ClearAdmin)|::ExecuteMsg::UpdateConfig)$")
-CONFIG_CLASS_CALLS = re.compile(r"^cw_controllers::(Hooks::(execute_add_hook|execute_remove_hook|add_hook|remove_hook)"
-                                r"|Admin::(execute_update_admin|set))$")
-MSG_EFFECT = re.compile(r"^cosmwasm_std::(WasmMsg|BankMsg|SubMsg|StakingMsg|DistributionMsg)::")
-
+ 
 ROOTS = {
     # crate: (execute path, floor of ExecuteMsg variants)
     "terraswap_factory": 10, "vault_factory": 5, "incentive_factory": 3, "terraswap_pair": 6,
@@ -142,34 +139,6 @@ def library_self_guarded(model, chain, e):
     return ok_adm and ok_info
 
 
-def collect_arm_effects(model, root, ab):
-    """[(chain, effect, item)] for all relevant effects reachable from the arm blocks `ab`."""
-    out = []
-    for chain, f in enumerate_chains(model, root, start_blocks=ab):
-        for e in fn_effects(model, f):
-            if not chain and e.block not in ab:
-                continue
-            item = None
-            if e.kind == "write":
-                item = e.what
-                if item.startswith("param:"):
-                    items = resolve_param_item(model, chain, int(item[6:]))
-                    if not items:
-                        out.append((chain, e, item))
-                    for it in items:
-                        out.append((chain, e, it))
-                    continue
-                out.append((chain, e, item))
-            elif e.kind == "msg":
-                if MSG_EFFECT.match(e.what) or CONFIG_CLASS_MSGS.search(e.what):
-                    out.append((chain, e, e.what))
-            elif e.kind == "call":
-                if CONFIG_CLASS_CALLS.search(e.what) or re.search(
-                        r"^cosmwasm_std::(wasm_execute|wasm_instantiate)$|^cosmwasm_std::SubMsg::(new|reply_\w+)$", e.what):
-                    out.append((chain, e, e.what))
-    return out
-
-
 def chain_str(chain, e):
     return " -> ".join([c[0].split("::", 1)[1] if "::" in c[0] else c[0] for c in chain] + [e.fn.split("::", 1)[1]])
 
@@ -194,7 +163,7 @@ def run(ctx):
         total_variants += len(table)
         for var, tgt in sorted(table.items()):
             ab = arm_blocks(v, tgt, sb)
-            effects = collect_arm_effects(model, root, ab)
+            effects = collect_effects(model, root, ab)
             for ch, e, it in effects:
                 ctx.fn_seen.add(e.fn)
             spec = req.get((crate, var))
